@@ -50,6 +50,7 @@ type scriptT struct {
 }
 
 type result struct {
+	again    func() cli.Resp
 	Returned bool
 	At       time.Duration
 	Kind     string // ok noresp ctx inuse other nilnil
@@ -320,6 +321,7 @@ func execute(t *testing.T, sc scriptT) (res map[int]*result, tx int, matcherNil 
 						r.Kind, r.Nonce = "damaged", rp.Nonce // not the bytes of the datagram that arrived
 					case err == nil && got:
 						r.Kind, r.Nonce = "ok", rp.Nonce
+						r.again = rp.Again
 					case err == nil:
 						r.Kind = "nilnil"
 					case f.IsNoResponse(err):
@@ -442,6 +444,16 @@ func judge(r *mon.Rec, t *testing.T, sc scriptT, tag string) {
 	for _, s := range sc.Steps {
 		if s.Op == "start" {
 			callOf[s.Call] = s
+		}
+	}
+	// what a call returned is the caller's: read again after all the later traffic of the script, it is still the
+	// datagram it was
+	for id, rr := range res {
+		if rr.Kind == "ok" && rr.again != nil {
+			if a := rr.again(); a.Nonce != rr.Nonce || a.Damaged {
+				bad("returned-message-changed", "the message call %d returned (datagram %d) reads as datagram %d (trailer intact: %v) after the later traffic of the script", id, rr.Nonce, a.Nonce, !a.Damaged)
+				return
+			}
 		}
 	}
 	// invariants that hold for every script (also with the cancel gap opened)
